@@ -145,7 +145,15 @@ def run(chk, orch):
                 by = collections.OrderedDict()
                 for x in cand:
                     by.setdefault((st[x[0]], x[2]), []).append(x)
-                cand = [v[chk.rng.randrange(len(v))] if len(v) > 2 else v[0] for v in by.values()]
+                # ... plus the LAST occurrence in the stages that work through the chromosomes one by one (a kill before the first
+                # chromosome is finished and a kill after most of them are finished leave different states behind)
+                reps = []
+                for (stg, _), v in by.items():
+                    first = v[chk.rng.randrange(len(v))] if len(v) > 2 else v[0]
+                    reps.append(first)
+                    if len(v) > 1 and stg in ("collect", "construct") and v[-1] != first:
+                        reps.append(v[-1])
+                cand = reps
             for seq, slot, label, occ in cand:
                 for phase in ("before", "after", "after+threads"):
                     a = common.job_args(spec, opts, cell)
@@ -175,7 +183,40 @@ def run(chk, orch):
                     a["resume"] = rs
                     orch.submit(cell["hashseed"], "scenarios:crash_resume", a, tag=("x", wi, seq, phase))
                     points[(wi, seq, phase)] = (label, st[seq], a)
-        for jid, tag, r in orch.results():
+                if (quick and wi == 1 or (not quick and chk.rng.random() < 0.1)) and st[seq] in ("construct", "merge"):
+                    # the killed run and the resumed run are different processes: by default they do not share a string hash
+                    # seed.  First half under this cell's seed, second half by the fork server of another seed.
+                    a = common.job_args(spec, opts, cell)
+                    if pres.get(wi):
+                        a["pre"] = pres[wi]
+                    a["fault"] = {"kind": "kill", "index": seq, "phase": "after"}
+                    a["resume"] = {}
+                    a["phase"] = "crash"
+                    orch.submit(cell["hashseed"], "scenarios:crash_resume", a, tag=("x1", wi, seq, "after+hashseed"))
+                    points[(wi, seq, "after+hashseed")] = (label, st[seq], a)
+        collected = list(orch.results())
+        second = []
+        for jid, tag, r in collected:
+            if tag[0] != "x1":
+                continue
+            _, wi, seq, phase = tag
+            label, stage, a = points[(wi, seq, phase)]
+            if not r.get("ok") or not (r["res"].get("rundir")):
+                if r.get("ok") and r["res"].get("no_crash"):
+                    chk.harness_error("fault index %d not reached (first half) %s" % (seq, label))
+                elif not r.get("ok"):
+                    chk.harness_error("%s %s %s: %s" % (stage, label, phase, r.get("err")))
+                continue
+            other = (wls[wi][2]["hashseed"] + 5) % 8
+            a2 = dict(a, phase="resume", rundir=r["res"]["rundir"])
+            points[(wi, seq, phase)] = (label, stage, dict(a2, resume_hashseed=other))
+            orch.submit(other, "scenarios:crash_resume", a2, tag=("x", wi, seq, phase))
+            second.append(1)
+        if second:
+            collected = [c for c in collected if c[1][0] != "x1"] + list(orch.results())
+        else:
+            collected = [c for c in collected if c[1][0] != "x1"]
+        for jid, tag, r in collected:
             _, wi, seq, phase = tag
             label, stage, a = points[(wi, seq, phase)]
             spec, opts, cell = wls[wi]
@@ -192,6 +233,8 @@ def run(chk, orch):
                 continue
             chk.evaluations += 1
             chk.faults["kill-tree/" + phase] += 1
+            if phase == "after+hashseed":
+                chk.faults["resume_under_another_hash_seed"] += 1
             chk.distinct.add(json.dumps([wi, rounds, stage, label, phase]))
             chk.probes["crash_in_stage_" + stage] += 1
             if "_collected" in label and phase == "after":
